@@ -444,3 +444,62 @@ func SortedLinkIDs(m map[string]Link) []string {
 	sort.Strings(ks)
 	return ks
 }
+
+// ChanOpenTryRaw asks the module routed at routePort about a channel on port portArg (a port it
+// is not bound to); nothing is written on acceptance except what the callback itself writes.
+func ChanOpenTryRaw(p *State, pk *ibckeeper.Keeper, routePort, portArg string, a HandshakeArgs, counterpartyChan string) (chID string, err error) {
+	_, pan := p.RunTx(func(ctx sdk.Context) bool {
+		cb, e := route(pk, routePort)
+		if e != nil {
+			err = e
+			return false
+		}
+		chID = pk.ChannelKeeper.GenerateChannelIdentifier(ctx)
+		_, e = cb.OnChanOpenTry(ctx, a.Order, a.PHops, portArg, chID, channeltypes.NewCounterparty(a.CPort, counterpartyChan), a.Version)
+		if e != nil {
+			err = e
+			return false
+		}
+		return true
+	})
+	if pan != "" {
+		return "", fmt.Errorf("panic: %s", pan)
+	}
+	return chID, err
+}
+
+// ChanOpenInitOn calls OnChanOpenInit of the module bound to port (no channel is written).
+func ChanOpenInitOn(s *State, k *ibckeeper.Keeper, port string, order channeltypes.Order, hops []string, cpPort, version string) error {
+	var err error
+	_, pan := s.RunTx(func(ctx sdk.Context) bool {
+		cb, e := route(k, port)
+		if e != nil {
+			err = e
+			return false
+		}
+		_, err = cb.OnChanOpenInit(ctx, order, hops, port, k.ChannelKeeper.GenerateChannelIdentifier(ctx), channeltypes.NewCounterparty(cpPort, ""), version)
+		return false
+	})
+	if pan != "" {
+		return fmt.Errorf("panic: %s", pan)
+	}
+	return err
+}
+
+// ChanOpenAckRaw calls OnChanOpenAck of the module bound to port (nothing is written).
+func ChanOpenAckRaw(s *State, k *ibckeeper.Keeper, port, chID, cpChan, version string) error {
+	var err error
+	_, pan := s.RunTx(func(ctx sdk.Context) bool {
+		cb, e := route(k, port)
+		if e != nil {
+			err = e
+			return false
+		}
+		err = cb.OnChanOpenAck(ctx, port, chID, cpChan, version)
+		return false
+	})
+	if pan != "" {
+		return fmt.Errorf("panic: %s", pan)
+	}
+	return err
+}
